@@ -66,7 +66,9 @@ def main():
             ids[n] = sid
             as_prop[sid] = other
     for i in ids:
-        if os.path.isdir(os.path.join(VERIF, "seeded", i)):
+        if i.startswith("PINNED:"):
+            seeds.append(i)
+        elif os.path.isdir(os.path.join(VERIF, "seeded", i)):
             seeds.append(i)
         else:
             seeds += sorted(os.path.basename(p) for p in glob.glob(os.path.join(VERIF, "seeded", i + "-*")))
